@@ -380,6 +380,7 @@ def valid_utf8_everywhere(x):
 
 # ---------------------------------------------------------------- generators
 SPECIALS = ['#', '$', '%23', '%24', '%', '+', '++', ' ', '  ', '|', '{', '}', '{0}', '{x}', '{}', '%s', '%(a)s', '\\',
+            'AAPL.O\n', '12.5\n', 'x\r', '\nabc', 'abc\r\n', 'a\tb', '\x0b', 'a\x1cb', 'line1\nline2', 'a|b', 'k=v|w=5', '~', '*', "'quoted'", '"dq"',
             'gr\u00f6\u00dfe', '\u4ef7\u683c', '\u0446\u0435\u043d\u0430', 'm\u00b2', '\u0663', '\u00e9', 'A', 'z9', '0', 'None', 'null']
 RESERVED = ['|', '#', '$', '%', '+', '*', '~', ' ', '\r', '\n', '\x00', 'é', '€', '😀',
             'a', 'Z', '0', '_', '.', '-', '/', '=', '&', '?', '"']
